@@ -477,8 +477,12 @@ def op_line(case: dict) -> str:
     return f"{k} {enc(case['s'])}"       # parts float host hostname ip4 ip6
 
 
-def run_impl(case: dict):
-    """Run the real code on one case. Returns (canonical output line, raw outcome) — raw = transport / exception / value."""
+_FRESH = object()
+
+
+def run_impl(case: dict, dobj=_FRESH):
+    """Run the real code on one case. Returns (canonical output line, raw outcome) — raw = transport / exception / value.
+    `dobj`: the defaults object to hand over (default: a fresh dict built from case["defaults"])."""
     im = impl()
     tr = im.tr
     k = case["kind"]
@@ -486,13 +490,13 @@ def run_impl(case: dict):
         if k == "ct":
             im.set_platform(case["win"])
             try:
-                t = tr.create_transport(case["s"], defaults_py(case.get("defaults")))
+                t = tr.create_transport(case["s"], defaults_py(case.get("defaults")) if dobj is _FRESH else dobj)
             finally:
                 im.restore()
             return canon_transport(t), t
         if k == "pps":
             parser = next(p for p in vars(tr).values() if isinstance(p, tr.TransportDescriptorParser) and p.interface == case["iface"])
-            d = parser.parse_parameter_strings(case["s"], defaults_py(case.get("defaults")))
+            d = parser.parse_parameter_strings(case["s"], defaults_py(case.get("defaults")) if dobj is _FRESH else dobj)
             return "ok" + "".join(f" {a}={canon_val(d[a])}" for a in sorted(d)), d
         if k == "parts":
             ps = tr.TransportDescriptorParser._parse_parts(case["s"])
@@ -1140,6 +1144,112 @@ def gen_roundtrip(rng):
     return {"kind": "rt_addr", "win": rng.random() < 0.3, "iface": iface, "host": host, "port": port}
 
 
+# ---- call sequences sharing ONE defaults object; defaults given as a read-only Mapping --------------------------------
+
+def gen_sequence(rng, tables):
+    """2-4 create_transport / parse_parameter_strings calls that are handed the *same* defaults object."""
+    ifaces = tables["ifaces"]
+    first = rng.choice(ifaces)
+    same = rng.random() < 0.45
+    chosen = [first if same else rng.choice(ifaces) for _ in range(rng.choice([2, 2, 3, 4]))]
+    merged = {}
+    for ifc in [chosen[0], chosen[-1], rng.choice(ifaces)]:
+        for _ in range(4):
+            d = gen_defaults(rng, ifc, ifaces)
+            if d:
+                for k, t, p in d:
+                    merged.setdefault(k, [k, t, p])
+                break
+    if not merged:
+        merged = {"port": ["port", "i", 5025], "baudrate": ["baudrate", "i", 9600], "connect_timeout": ["connect_timeout", "f", "7.5"]}
+    defs = list(merged.values())
+    have = tuple(d[0] for d in defs)
+    steps = []
+    for ifc in chosen:
+        if rng.random() < 0.8:
+            # alternate between spelling parameters out and leaving them to the defaults
+            parts = gen_valid(rng, ifc, near=0.03, have=have if rng.random() < 0.6 else ())
+            sdesc = ":".join(parts)
+        else:
+            sdesc = mutate(rng, gen_valid(rng, ifc, near=0.03, have=have))[1]
+        op = "pps" if rng.random() < 0.25 else "ct"
+        steps.append({"op": op, "s": sdesc, "iface": ifc["name"],
+                      "win": rng.random() < (0.5 if ifc["name"] in ("usbtmc", "gpib") else 0.2)})
+    return {"kind": "seq", "mapping": "proxy" if rng.random() < 0.3 else "dict", "defaults": defs, "steps": steps}
+
+
+def _step_case(step: dict, defs):
+    if step["op"] == "ct":
+        return {"kind": "ct", "win": step["win"], "s": step["s"], "defaults": defs}
+    return {"kind": "pps", "iface": step["iface"], "s": step["s"], "defaults": defs}
+
+
+def _items_same(a: dict, b: dict) -> bool:
+    return list(a.keys()) == list(b.keys()) and all(_same(a[k], b[k]) for k in a)
+
+
+def run_sequence(case: dict):
+    """Returns (sub-cases for the model with the implementation's output under the shared object, failure or None).
+
+    Oracle: the caller's defaults object is unchanged after every call; every call behaves exactly as the same call with a
+    fresh dict holding the values the caller's defaults had BEFORE the first call (a read-only Mapping behaves like the
+    equivalent dict); and each create_transport outcome satisfies the single-call property w.r.t. those original values."""
+    import types
+    defs = case["defaults"]
+    shared = defaults_py(defs)
+    orig = dict(shared)
+    dobj = types.MappingProxyType(shared) if case["mapping"] == "proxy" else shared
+    subs, outs = [], []
+    fail = None
+    for i, step in enumerate(case["steps"]):
+        sc = _step_case(step, defs)
+        out, raw = run_impl(sc, dobj)
+        subs.append(sc)
+        outs.append(out)
+        if fail is not None:
+            continue
+        what = f"call {i + 1}/{len(case['steps'])} {step['op']}({step['s']!r}) [{'win32' if step['win'] else 'linux'}]"
+        if not _items_same(shared, orig):
+            fail = ("defaults:caller-object-mutated",
+                    f"{what}: the caller's defaults object changed from {orig!r} to {shared!r}")
+            continue
+        ref, _ = run_impl(sc)
+        if out != ref:
+            sig = ("defaults:mapping-differs-from-dict:" if case["mapping"] == "proxy" else "defaults:shared-object-changes-result:") + step["op"]
+            fail = (sig, f"{what} with the {'read-only Mapping' if case['mapping'] == 'proxy' else 'shared dict'} {orig!r} "
+                         f"(history: {[s_['s'] for s_ in case['steps'][:i]]!r}) gives {out[:120]!r}; with a fresh dict {ref[:120]!r}")
+            continue
+        if step["op"] == "ct":
+            r = oracle_ct(sc, raw)
+            if r is not None:
+                fail = (r[0], f"{what}, shared defaults: {r[1]}")
+    return subs, outs, fail
+
+
+def shrink_sequence(case: dict, sig: str) -> dict:
+    def still(c):
+        return (run_sequence(c)[2] or ("",))[0] == sig
+    cur = dict(case)
+    changed = True
+    while changed:
+        changed = False
+        for i in range(len(cur["steps"])):
+            if len(cur["steps"]) > 1:
+                cand = dict(cur, steps=cur["steps"][:i] + cur["steps"][i + 1:])
+                if still(cand):
+                    cur, changed = cand, True
+                    break
+        if changed:
+            continue
+        for i in range(len(cur["defaults"])):
+            if len(cur["defaults"]) > 1:
+                cand = dict(cur, defaults=cur["defaults"][:i] + cur["defaults"][i + 1:])
+                if still(cand):
+                    cur, changed = cand, True
+                    break
+    return cur
+
+
 def shrink_ct(case: dict, sig: str) -> dict:
     """greedy deletion (characters of the string, entries of the defaults) keeping the same oracle signature"""
     def still(c):
@@ -1265,7 +1375,8 @@ class C14(Prop):
                           "live parser tables (33%), one mutation of it (47%: drop/dup/swap part, extra '=', empty part, bracket "
                           "imbalance, case, hex/underscore/Unicode digits, control chars, NUL, '$', separators, surplus/unknown "
                           "keyword), or an arbitrary string (20%); non-trivial = names a known interface and has ≥ 2 parts; distinct "
-                          "by (string, defaults, platform). Primitive streams (parts/int/float/host/ip/fmtres) and round-trip cases "
+                          "by (string, defaults, platform). Call histories (2-4 calls handed ONE defaults object, as dict or as read-only "
+                          "Mapping), primitive streams (parts/int/float/host/ip/fmtres) and round-trip cases "
                           "are counted separately in input_distribution.")
         tables = read_tables()
         names = [i["name"] for i in tables["ifaces"]]
@@ -1334,11 +1445,44 @@ class C14(Prop):
                     seen[fail[0]] = True
                     res.failures.append(Failure(fail[0], fail[1], c))
         self._batch(subs, res, "roundtrip")
+        # 4. call histories: one defaults object shared by several calls; defaults as a read-only Mapping
+        self._sequences(ctx, rng, tables, ctx.scale(5000, 60000), res, seen)
         res.extra["oracle"] = ("create_transport returns a transport of the named interface whose every parameter equals the typed "
                                "value of its token in the string (unambiguous strings), else the caller's default, else the constructor "
                                "default — or raises QMI_TransportDescriptorException; nothing else. Listed resources and "
                                "format_address_and_port output parse back to the formatted values.")
         return res
+
+    def _sequences(self, ctx: Ctx, rng, tables, n: int, res: Result, seen: dict) -> None:
+        subs_all, outs_all = [], []
+        for _ in range(n):
+            c = gen_sequence(rng, tables)
+            subs, outs, fail = run_sequence(c)
+            subs_all += subs
+            outs_all += outs
+            res.note_case(("seq", repr(c)))
+            res.count("seq_" + c["mapping"])
+            res.count("seq_calls", len(c["steps"]))
+            if fail is not None:
+                res.count("oracle_fail:" + fail[0])
+                if fail[0] not in seen:
+                    seen[fail[0]] = True
+                    small = shrink_sequence(c, fail[0])
+                    f2 = run_sequence(small)[2] or fail
+                    res.failures.append(Failure(f2[0], f2[1], small))
+        # the model is a pure function of (string, defaults-before-the-first-call): compare the outputs observed under sharing
+        lines = [op_line(c) for c in subs_all]
+        model = [canon_model_line(l) for l in LeanDriver(self.driver).run(lines)]
+        res.traces_validated += len(lines)
+        bad = 0
+        for c, a, b, ln in zip(subs_all, outs_all, model, lines):
+            if a != b:
+                bad += 1
+                if bad <= 4:
+                    res.broken.append(Broken("correspondence", "Descriptor model vs qmi.core.transport (shared defaults object)",
+                                             f"op={ln[:200]!r} impl(shared)={a[:200]!r} model={b[:200]!r}", case=c))
+        if bad:
+            res.count("disagreements_sequences", bad)
 
     # -- triage -------------------------------------------------------------------------------------------------------
     def search(self, ctx: Ctx, broken) -> Result:
@@ -1399,6 +1543,8 @@ class C14(Prop):
             for c, _, _ in triples:
                 res.note_case((c["s"], repr(c["defaults"]), c["win"]))
             self._judge_ct(triples, res, seen)
+        self._sequences(ctx, rng, tables, 4000, res, seen)
+        res.broken = []
         for _ in range(4000):
             c = gen_roundtrip(rng)
             sub, fail = run_roundtrip(c)
@@ -1415,6 +1561,9 @@ class C14(Prop):
             return Failure(r[0], r[1], rp) if r else None
         if rp.get("kind") in ("rt_fmt", "rt_addr"):
             sub, fail = run_roundtrip(rp)
+            return Failure(fail[0], fail[1], rp) if fail else None
+        if rp.get("kind") == "seq":
+            fail = run_sequence(rp)[2]
             return Failure(fail[0], fail[1], rp) if fail else None
         raise ValueError(f"unknown replay kind {rp.get('kind')}")
 
